@@ -147,7 +147,7 @@ Theorem mark_dirty_on_device s s' :
   0 <= fat_start s -> 0 <= BPB_NumFATs (s_h s) -> fat_start s + BPB_NumFATs (s_h s) * fat_bytes s <= s_dsize s ->
   (forall v, lenZ (pack_fat (ft s) (updZ (s_fat s) 1 v) (s_hi s)) <= fat_bytes s) ->
   mark_dirty s = Ok s' ->
-  parse_hdr (rd s' 0 512) = s_h s' /\ flag_set (s_h s') = true /\ flag_set (parse_hdr (rd s' 0 512)) = true.
+  parse_hdr (rd s' 0 512) = s_h s' /\ flag_set (s_h s') = true /\ flag_set (parse_hdr (rd s' 0 512)) = true /\ dev_ok (s_dev s').
 Proof.
   intros Hd Hwf Hr Hsz Hbk Hfs Hn Hfit Hpl H.
   destruct (mark_dirty_marks _ _ H ltac:(lia)) as [Hflag _].
@@ -168,7 +168,7 @@ Proof.
   destruct H1 as (Hd1 & Hh1 & Hp1 & Hs1).
   set (s2 := upd_hdr s1 _) in H.
   assert (Hwf2 : hdr_wf (s_h s2)) by (unfold s2; cbn [s_h upd_hdr]; rewrite Hh1; apply set_reserved1_wf; [exact Hwf|apply lor1_byte; exact Hr]).
-  destruct (write_bpb_persists s2 s' ltac:(exact Hd1) Hwf2 ltac:(unfold s2; cbn [s_dsize upd_hdr]; lia)) as (P1 & P2 & _ & _); [|exact H|].
+  destruct (write_bpb_persists s2 s' ltac:(exact Hd1) Hwf2 ltac:(unfold s2; cbn [s_dsize upd_hdr]; lia)) as (P1 & P2 & _ & P4); [|exact H|].
   - unfold s2, ft, bps. cbn [s_p s_h upd_hdr BPB_BkBootSec BPB_BytsPerSec set_reserved1]. rewrite Hp1, Hh1. exact Hbk.
-  - rewrite P2 in Hflag |- *. split; [rewrite P1; reflexivity|]. split; [exact Hflag|rewrite P1; exact Hflag].
+  - rewrite P2 in Hflag |- *. split; [rewrite P1; reflexivity|]. split; [exact Hflag|]. split; [rewrite P1; exact Hflag|exact P4].
 Qed.
